@@ -692,7 +692,7 @@ class Gen:
             if x < 0.12:
                 return ex_int(0, r.choice(['0', '(void *)0', '0'])) if t.ptrto != 'fn' else ex_int(0, '0')
             cands = [ad for ad in ADDRS if ad[3] == ('p' + t.ptrto) or (t.ptrto == 'void' and ad[3] != 'pfn')]
-            if t.ptrto == 'char' and x < 0.45:
+            if t.ptrto == 'char' and x < 0.45 and not getattr(self, 'avoid_str', False):
                 s = self.string_value(1, r.randint(0, 6), prefix='')
                 s.sym = lit_id(bytes(s.data))
                 k = r.choice([0, 0, 1, len(s.data) - 1])
@@ -881,7 +881,9 @@ class Gen:
                 # -- whole-aggregate expressions
                 e = None
                 # (gcc mis-places a string literal that follows a designated item in an implicit level: not generated)
-                if t.kind == 'arr' and t.elem.kind == 'int' and r.random() < 0.6 and (desig or not getattr(L, 'tainted', False)):
+                leaving_chars = bool(L.path) and L.path[-1].ty.kind == 'arr' and L.path[-1].ty.elem.kind == 'int'
+                self.avoid_str = leaving_chars and not desig      # (gcc: "excess elements" for a string after a full implicit array)
+                if t.kind == 'arr' and t.elem.kind == 'int' and r.random() < 0.6 and (desig or not (getattr(L, 'tainted', False) or leaving_chars)):
                     e = self.string_for(t, m)
                 if e is not None:
                     if r.random() < 0.15 and self.fresh(m, t, off):
